@@ -59,7 +59,10 @@ Definition save_a {A} (s : asession) (k : reply -> prog A) : prog A :=
   if Nat.eqb (n_indexes s) 1%nat then Do (ASave s) k else k RFail.
 
 (* the subject of an owner-less grant is the client id; harness clients are named c1..c9 *)
-Definition cname (i : id) : string := String "c" (String (ascii_of_N (48 + i)) EmptyString).
+(* the harness names client i "c<i>" in decimal (ids below 100) *)
+Definition cname (i : id) : string :=
+  if N.ltb i 10 then String "c" (String (ascii_of_N (48 + i)) EmptyString)
+  else String "c" (String (ascii_of_N (48 + i / 10)) (String (ascii_of_N (48 + i mod 10)) EmptyString)).
 
 (* ctx.ExportableSubject with the harness's pairwise function "pw:<client>:<sub>" *)
 Definition export_sub (c : client) (sub : string) : string :=
